@@ -215,7 +215,8 @@ class C06:
             "T and T? type, and functions returning T?; one site per case, planted at one of 12 positions. reject cases (2/3): a "
             "source of null (None literal, T? variable, call returning T?, if-expression with None in either branch) flows into a "
             "position that requires T: annotated initialiser, new value of a variable, of a field, argument of a function / method "
-            "/ constructor, tail or explicit return of a function returning T, left or right operand of an operator of T, receiver "
+            "/ constructor, an explicit argument for a parameter WITH a default value (function, method, class arguments, __init__), the "
+            "first / a later / a one-path-only assignment to a field inside an explicit constructor, tail or explicit return of a function returning T, left or right operand of an operator of T, receiver "
             "of a method of T. accept cases (1/3): T, None and T? into the T? version of the same positions, and `x ? d` into T. "
             "Oracle: reject => rejected with diagnostics, accept => accepted. Non-trivial: every case; distinct by SHA-1 of the "
             "source; the consumer x source x type x direction matrix is reported and an empty reject cell prints a warning.")
